@@ -199,9 +199,7 @@ def _udp (b, off, end, r, pfx, over, ph, depth):
   seg = b[off:end]
   want = csum(ph(len(seg)) + zeroed(seg, 6))
   if want == 0: want = 0xffff    # RFC 768: an all-zero result is transmitted as all ones
-  if got == 0 and over == "/ipv4":
-    r.note(name + ".nochecksum", True)
-  elif got != want:
+  if got != want:                # a sender that computes the checksum never emits 0 ("no checksum")
     r.issue("checksum", name, "checksum", want, got)
   sp, dp = u16(b, off), u16(b, off + 2)
   if 4789 in (sp, dp) and end - off >= 16 and depth < 3:
